@@ -12,6 +12,21 @@ void (*g_preempt_hook)() = nullptr;
 void (*g_access_hook)(const void *, unsigned, int) = nullptr;
 
 struct Block { size_t size; uint64_t seq; int owner; uintptr_t site; };
+std::vector<WatchedStatic> g_watched_statics;
+void seams_load_watch_list() {
+    g_watched_statics.clear();
+    const char *e = getenv("VERIF_STATICS");   // "0xaddr:size:name,..."
+    if (!e) return;
+    std::string s = e; size_t pos = 0;
+    while (pos < s.size()) {
+        size_t c = s.find(',', pos); if (c == std::string::npos) c = s.size();
+        std::string item = s.substr(pos, c - pos); pos = c + 1;
+        size_t a = item.find(':'), b = item.find(':', a == std::string::npos ? 0 : a + 1);
+        if (a == std::string::npos || b == std::string::npos) continue;
+        WatchedStatic w; w.addr = (uintptr_t) strtoull(item.substr(0, a).c_str(), 0, 16); w.size = (size_t) strtoull(item.substr(a + 1, b - a - 1).c_str(), 0, 10); w.name = item.substr(b + 1);
+        if (w.addr && w.size) g_watched_statics.push_back(w);
+    }
+}
 static std::map<uintptr_t, Block> *g_live;   // heap-allocated on purpose: must outlive static destructors
 static const char *g_phase = "idle";
 
@@ -240,6 +255,17 @@ SIM_ACCESS(__sanitizer_cov_store2, 2, 1)
 SIM_ACCESS(__sanitizer_cov_store4, 4, 1)
 SIM_ACCESS(__sanitizer_cov_store8, 8, 1)
 SIM_ACCESS(__sanitizer_cov_store16, 16, 1)
+
+// ---- bulk writes made by libhtp (own flavour only): checked as stores at both ends of the range
+static inline void own_range(void *dst, size_t n) { if (g_access_hook && n) { g_access_hook(dst, 1, 1); if (n > 1) g_access_hook((char *) dst + n - 1, 1, 1); } }
+static inline void own_read(const void *src, size_t n) { if (g_access_hook && n) { g_access_hook(src, 1, 0); if (n > 1) g_access_hook((const char *) src + n - 1, 1, 0); } }
+void *simown_memcpy(void *d, const void *s, size_t n) { own_range(d, n); own_read(s, n); return memcpy(d, s, n); }
+void *simown_memmove(void *d, const void *s, size_t n) { own_range(d, n); own_read(s, n); return memmove(d, s, n); }
+void *simown_memset(void *d, int c, size_t n) { own_range(d, n); return memset(d, c, n); }
+void *simown_asan_memcpy(void *d, const void *s, size_t n) { return simown_memcpy(d, s, n); }
+void *simown_asan_memmove(void *d, const void *s, size_t n) { return simown_memmove(d, s, n); }
+void *simown_asan_memset(void *d, int c, size_t n) { return simown_memset(d, c, n); }
+char *simown_strncpy(char *d, const char *s, size_t n) { own_range(d, n); return strncpy(d, s, n); }
 
 // ---- sanitizer plumbing -----------------------------------------------------------------------
 #if defined(SIM_SANITIZE)
